@@ -1,11 +1,19 @@
 #!/bin/sh
-# Builds the harness (against /repo's working tree, tag verif) and the extracted model driver.
+# Builds the harness (against /repo's working tree, tag verif), extracts the Coq model to OCaml and
+# builds the model driver. Called by ./check under a lock; by ./setup.sh after a fresh restore.
 set -e
 export GOFLAGS=-mod=mod GOPROXY=off GOSUMDB=off GOTOOLCHAIN=local
 mkdir -p /verif/build/ocaml
 (cd /verif/harness && go build -tags verif -o /verif/build/pgh ./cmd/pgh)
 if [ "$1" != "go" ]; then
-  cd /verif/build/ocaml
-  cp /verif/coq/extract/model.ml /verif/coq/extract/model.mli /verif/ocaml/driver.ml /verif/ocaml/main.ml .
-  ocamlfind ocamlopt -O3 -w -a model.mli model.ml driver.ml main.ml -o modelrun
+  # re-extract only when the model changed
+  cd /verif/coq/extract
+  stamp=$(cat ../Base.v ../Crc.v ../Bytes.v ../Record.v ../Flat.v ../Index.v ../Spec.v ../DB.v ../DBInv.v Extract.v /verif/ocaml/*.ml | sha256sum | cut -d' ' -f1)
+  if [ ! -f /verif/build/ocaml/modelrun ] || [ "$(cat /verif/build/ocaml/stamp 2>/dev/null)" != "$stamp" ]; then
+    timeout 600 coqc -Q .. Pogreb Extract.v >/dev/null
+    cd /verif/build/ocaml
+    cp /verif/coq/extract/model.ml /verif/coq/extract/model.mli /verif/ocaml/driver.ml /verif/ocaml/main.ml .
+    ocamlfind ocamlopt -O3 -w -a model.mli model.ml driver.ml main.ml -o modelrun
+    echo "$stamp" > stamp
+  fi
 fi
